@@ -166,9 +166,16 @@ class Net:
         self.delivered.append((self.clock.ms, dst.name, srchost.name, data))
         proto.datagram_received(data, src)
 
-    def inject(self, host, data, src=('10.9.9.9', 5353), sock=0):
-        """deliver a datagram to one socket of a host right now, as if it had arrived from `src`"""
-        host.protocols[sock].datagram_received(data, src)
+    def inject(self, host, data, src=('10.9.9.9', 5353), sock=0, contain=False):
+        """deliver a datagram to one socket of a host right now, as if it had arrived from `src`. With contain=True an exception out of
+        datagram_received goes where asyncio's datagram transport lets it go: to the loop's exception handler (`escaped`)."""
+        if not contain:
+            host.protocols[sock].datagram_received(data, src)
+            return
+        try:
+            host.protocols[sock].datagram_received(data, src)
+        except Exception as e:        # noqa: BLE001
+            self.loop.call_exception_handler({'message': 'Exception in callback datagram_received', 'exception': e})
 
 
 class Sim(contextlib.ExitStack):
